@@ -111,3 +111,17 @@ MUTANTS += [
     {"id": "C02-utf8-push-inlined-store-after-increment", "prop": "C02", "expect": "Utf8Decoder",
      "edits": [("src/decoder.rs", '                    self.push(*byte);\n                    buf.consume(consume);\n                    return Ok(Some(self.consume()));', '                    self.buffer[self.offset] = *byte;\n                    self.offset += 1;\n                    buf.consume(consume);\n                    return Ok(Some(self.consume()));'), ("src/decoder.rs", '                    self.push(*byte);\n                    self.state = state;', '                    self.state = state;\n                    self.offset += 1;\n                    self.buffer[self.offset] = *byte;'), ("src/decoder.rs", '    fn push(&mut self, byte: u8) {\n        self.buffer[self.offset] = byte;\n        self.offset += 1;\n    }\n\n', '')]},
 ]
+
+
+# ---- round 4 (C03-J): the Raw constructor handed to a private generic helper that applies it under the guard
+_EV_OLD = '        let event = self\n            .matcher\n            .decode(buf)?\n            .transpose()\n            .unwrap_or_else(|reject| {\n                if reject.is_empty() {\n                    return None;\n                }\n                tracing::info!(\n                    "[TTYEventDecoder.decode] unhandled: {:?}",\n                    String::from_utf8_lossy(&reject)\n                );\n                Some(TerminalEvent::Raw(reject.into_vec()))\n            });\n        Ok(event)\n    }\n}\n'
+MUTANTS += [
+    {"id": 'C02-benign-raw-ctor-through-helper', "prop": "C02", "benign": True,
+     "edits": [("src/decoder.rs", _EV_OLD, '        let decoded = self.matcher.decode(buf)?;\n        Ok(item_or_raw(decoded, TerminalEvent::Raw))\n    }\n}\n\nfn item_or_raw<T>(decoded: Option<Result<T, MatcherBuffer>>, raw: impl FnOnce(Vec<u8>) -> T) -> Option<T> {\n    match decoded {\n        None => None,\n        Some(Ok(item)) => Some(item),\n        Some(Err(reject)) if reject.is_empty() => None,\n        Some(Err(reject)) => Some(raw(reject.into_vec())),\n    }\n}\n')]},
+    {"id": 'C02-benign-raw-ctor-through-helper-len-guard', "prop": "C02", "benign": True,
+     "edits": [("src/decoder.rs", _EV_OLD, '        let decoded = self.matcher.decode(buf)?;\n        Ok(item_or_raw(decoded, TerminalEvent::Raw))\n    }\n}\n\nfn item_or_raw<T>(decoded: Option<Result<T, MatcherBuffer>>, raw: impl FnOnce(Vec<u8>) -> T) -> Option<T> {\n    match decoded {\n        None => None,\n        Some(Ok(item)) => Some(item),\n        Some(Err(reject)) => {\n            if reject.len() > 0 {\n                let make = raw;\n                Some(make(reject.into_vec()))\n            } else {\n                None\n            }\n        }\n    }\n}\n')]},
+    {"id": 'C02-raw-ctor-through-helper-unguarded', "prop": "C02", "expect": 'RAW-NONEMPTY',
+     "edits": [("src/decoder.rs", _EV_OLD, '        let decoded = self.matcher.decode(buf)?;\n        Ok(item_or_raw(decoded, TerminalEvent::Raw))\n    }\n}\n\nfn item_or_raw<T>(decoded: Option<Result<T, MatcherBuffer>>, raw: impl FnOnce(Vec<u8>) -> T) -> Option<T> {\n    match decoded {\n        None => None,\n        Some(Ok(item)) => Some(item),\n        Some(Err(reject)) => Some(raw(reject.into_vec())),\n    }\n}\n')]},
+    {"id": 'C02-raw-ctor-through-helper-flipped-guard', "prop": "C02", "expect": 'RAW-NONEMPTY',
+     "edits": [("src/decoder.rs", _EV_OLD, '        let decoded = self.matcher.decode(buf)?;\n        Ok(item_or_raw(decoded, TerminalEvent::Raw))\n    }\n}\n\nfn item_or_raw<T>(decoded: Option<Result<T, MatcherBuffer>>, raw: impl FnOnce(Vec<u8>) -> T) -> Option<T> {\n    match decoded {\n        None => None,\n        Some(Ok(item)) => Some(item),\n        Some(Err(reject)) if !reject.is_empty() => None,\n        Some(Err(reject)) => Some(raw(reject.into_vec())),\n    }\n}\n')]},
+]
